@@ -160,6 +160,23 @@ def key_agreement(ctx, rule):
     ok = len(toks) == 1 and q.shape(toks[0].field("raw")) == GL + ".1" and q.shape(toks[0].field("idx")) == GL + ".0" and q.shape(toks[0].field("sm")) == "arg1"
     ctx.check(ok, rule, LOOKUP, "result=glb", "the token returned by lookup_token is exactly the element (and index) greatest_lower_bound selected, on every path (no shortcut around the search)",
               detail=str([q.shape(t)[:160] for t in toks]))
+    # ... and nothing is returned only when the search found nothing: every value lookup_token returns is the search's
+    # own `None` (the `?` residual, an explicit None under "the search returned None", or a map over the search result)
+    # or Some(..)
+    from rules.common import has_fact, opt_fact
+    GLC = GL[4:-1]
+    for sh, site, e in q.def_shapes(lb, 0):
+        if sh.startswith("Option::Some{") or sh.startswith("try("):
+            ok = True
+        elif sh.startswith("FromResidual::from_residual(") and GLC in sh:
+            ok = True
+        elif sh.startswith("Option::map(" + GLC) or sh.startswith("Option::map_or(" + GLC + ",Option::None"):
+            ok = True
+        elif sh == "Option::None":
+            ok = has_fact(lb, site[0], None, *opt_fact("none", GLC))
+        else:
+            ok = False
+        ctx.check(ok, rule, LOOKUP, "none-only-from-search", "lookup_token returns nothing only when greatest_lower_bound found no token at or before the query", ctx.site(lb, *site), detail=sh[:300])
     calls = [t for bi, t in lb.calls() if q.callee_matches(t, GLB)]
     ok = len(calls) == 1 and q.shape(q.arg_expr(lb, calls[0], 1)) == "tuple(arg2,arg3)" and q.shape(q.arg_expr(lb, calls[0], 0)) == "arg1.tokens"
     ctx.check(ok, rule, LOOKUP, "query=(line,col)", "lookup_token searches self.tokens for the query (line, col) in that order")
